@@ -32,6 +32,8 @@ mod walk;
 mod lay;
 #[path = "c02_morx.rs"]
 mod morx;
+#[path = "c02_kern.rs"]
+mod kern;
 
 use text::{t, tag_str, Fam, Sc, TextGen, EXTRA_TAGS, SCRIPTS};
 use walk::{Kind, Walked};
@@ -89,6 +91,11 @@ struct FontCase {
     aots: bool,
     /// upper bound on the factor by which this font's GSUB can grow a run (1 = not computed / benign)
     growth: f64,
+    /// the font's `kern` table is a generated one with a format 2 sub-table (the font then has no
+    /// GSUB / morx, so the run that is kerned is the submitted run)
+    kern2: Option<kern::Kern2>,
+    /// ... and the font has a GPOS table without a 'kern' feature (otherwise no GPOS at all)
+    kern2_gpos: bool,
 }
 
 fn first_member(data: &[u8]) -> Option<sfnt::Font> {
@@ -283,6 +290,8 @@ impl C02 {
             hot_chars: Vec::new(),
             aots: s.aots,
             growth: 1.0,
+            kern2: None,
+            kern2_gpos: false,
         }
     }
 }
@@ -636,6 +645,195 @@ impl C02 {
             // "grow" programs: every pass is applied once, so the construction bound is exact; the
             // probe (64 characters, run from exhaustive()) is exempt
             growth: if probe { 1.0 } else { prog.growth },
+            kern2: None,
+            kern2_gpos: false,
+        })
+    }
+
+    /// A font whose kerning comes from a generated `kern` table with a format 2 (class based)
+    /// sub-table (see c02_kern.rs): no GSUB, no morx, no GPOS or a GPOS without a 'kern' feature, so
+    /// that the `kern` fallback runs. Either a small generated font or a real seed font with its
+    /// layout tables taken out and its `kern` table replaced. `hot_chars` map to the glyphs the class
+    /// tables talk about.
+    fn gen_kern2_font(&self, cx: &mut Ctx, rng: &mut Rng) -> Option<FontCase> {
+        let real = !self.miri && !self.big.is_empty() && rng.chance(2, 5);
+        if real {
+            // ---- a real font (not the AOTS test fonts: some of their cmaps map beyond the glyph count) ----
+            let mut found = None;
+            for _ in 0..30 {
+                let si = *rng.pick(&self.big);
+                let s = &self.seeds[si];
+                if s.tables.is_some() && s.num_glyphs > 1 && s.chars.len() >= 4 {
+                    found = Some(si);
+                    break;
+                }
+            }
+            let si = match found {
+                Some(si) => si,
+                None => {
+                    cx.inconclusive("kern2:no-seed-font");
+                    return None;
+                }
+            };
+            let s = &self.seeds[si];
+            let mut tables = s.tables.clone()?;
+            // glyph ids of a few mapped characters (independent cmap reader)
+            let hot_chars: Vec<char> = {
+                let cmap = tables.gets("cmap")?;
+                let recs = sfnt::cmap::read_records(cmap)?;
+                let (ri, _) = sfnt::cmap::select(&recs)?;
+                let k = 2 + rng.below(9);
+                let mut v: Vec<char> = Vec::new();
+                if rng.chance(2, 3) {
+                    // neighbours in code point order tend to have neighbouring glyph ids
+                    let at = rng.below(s.chars.len());
+                    v.extend(s.chars.iter().skip(at).take(k));
+                } else {
+                    for _ in 0..k {
+                        v.push(*rng.pick(&s.chars));
+                    }
+                }
+                v.retain(|c| sfnt::cmap::lookup(cmap, recs[ri].offset as usize, *c as u32).map_or(false, |g| g != 0));
+                v
+            };
+            let hot: Vec<u16> = {
+                let cmap = tables.gets("cmap")?;
+                let recs = sfnt::cmap::read_records(cmap)?;
+                let (ri, _) = sfnt::cmap::select(&recs)?;
+                lay::cov_order(&hot_chars.iter().filter_map(|c| sfnt::cmap::lookup(cmap, recs[ri].offset as usize, *c as u32)).collect::<Vec<_>>())
+            };
+            if hot.is_empty() {
+                cx.inconclusive("kern2:no-hot-chars");
+                return None;
+            }
+            let k = kern::gen(rng, &hot, s.num_glyphs);
+            let keep_gpos = tables.gets("GPOS").is_some() && !s.features.contains(&t(b"kern")) && rng.bool();
+            for tname in ["GSUB", "morx", "kerx"] {
+                tables.remove(sfnt::tag(tname));
+            }
+            if !keep_gpos {
+                tables.remove(sfnt::tag("GPOS"));
+            }
+            if rng.bool() {
+                tables.remove(sfnt::tag("GDEF"));
+            }
+            tables.sets("kern", k.bytes.clone());
+            let mut fc = self.case_from_seed(si);
+            fc.name = format!("kern2:{}", s.name);
+            fc.kind = "kern2";
+            fc.program = Some("kern2");
+            fc.bytes = tables.build();
+            fc.hot_chars = hot_chars;
+            fc.kern2 = Some(k);
+            fc.kern2_gpos = keep_gpos;
+            if !fc.features.contains(&t(b"kern")) {
+                fc.features.push(t(b"kern"));
+            }
+            if fc.scripts.is_empty() {
+                fc.scripts = vec![t(b"latn"), t(b"DFLT")];
+            }
+            cx.class("kern2:font:real");
+            return Some(fc);
+        }
+        // ---- a generated font ----
+        let sc = if rng.chance(2, 3) { &SCRIPTS[16] } else { &SCRIPTS[rng.below(SCRIPTS.len())] };
+        let n: u16 = *rng.pick(&[24u16, 60, 130, 300, 700, 3000]);
+        let nh = 2 + rng.below(9);
+        let mut hot_chars: Vec<char> = Vec::new();
+        let mut guard = 0;
+        while hot_chars.len() < nh && guard < 200 {
+            guard += 1;
+            let c = match rng.below(10) {
+                0 => self.tg.mark(rng, sc),
+                1 | 2 => *rng.pick(&['A', 'V', 'T', 'o', 'f', 'i', '1', '/', ' ', '.']),
+                _ => self.tg.base(rng, sc),
+            };
+            if !hot_chars.contains(&c) {
+                hot_chars.push(c);
+            }
+        }
+        // glyph ids of the hot characters: next to each other (small class tables) or spread
+        let mut map = sfnt::cmap::Map::new();
+        let consecutive = rng.chance(2, 3);
+        let g0 = 1 + rng.below((n as usize).saturating_sub(nh + 1).max(1)) as u16;
+        for (i, c) in hot_chars.iter().enumerate() {
+            let g = if consecutive { (g0 + i as u16).min(n - 1) } else { 1 + rng.below(n as usize - 1) as u16 };
+            map.insert(*c as u32, g);
+        }
+        let mut next = 1u32;
+        let (lo, hi) = block_of(sc);
+        for c in (0x20..0x7F).chain(lo..=hi).chain([0x200C, 0x200D, 0x034F, 0x0300, 0x0301, 0x25CC]) {
+            let g = 1 + (next - 1) % (n as u32 - 1);
+            next += 1;
+            map.entry(c).or_insert(g as u16);
+        }
+        let hot: Vec<u16> = lay::cov_order(&hot_chars.iter().map(|c| map[&(*c as u32)]).collect::<Vec<_>>());
+        let k = kern::gen(rng, &hot, n);
+        let mut f = sfnt::tables::minimal_font(Vec::new(), n, Some(0x20));
+        let groups = sfnt::cmap::groups12(&map, rng);
+        let sub = sfnt::cmap::write_format12(&groups, 0);
+        f.sets("cmap", sfnt::cmap::write_cmap(&[sfnt::cmap::Record { platform: 3, encoding: 10, subtable: 0 }], &[sub]));
+        f.sets("kern", k.bytes.clone());
+        let mut scripts = vec![sc.tag];
+        if sc.tag != t(b"latn") && rng.bool() {
+            scripts.push(t(b"latn"));
+        }
+        let mut features = vec![t(b"kern")];
+        let mut pool = lay::Pool { hot: hot.clone(), marks: Vec::new(), sinks: vec![0], n, wild: false, wrote_oob: false };
+        let with_gpos = rng.chance(1, 3);
+        if with_gpos {
+            // a GPOS without a 'kern' feature: the `kern` table is used when 'kern' is asked for
+            scripts.push(t(b"DFLT"));
+            let tags: &[&[u8; 4]] = &[b"dist", b"mark", b"mkmk", b"curs", b"abvm", b"blwm", b"tst1"];
+            let nl = rng.below(3);
+            let lookups: Vec<lay::Lk> = (0..nl)
+                .map(|_| {
+                    let pair = rng.bool();
+                    lay::Lk { ty: if pair { 2 } else { 1 }, flag: 0, mfs: 0, subs: vec![if pair { lay::gpos_pair(rng, &mut pool) } else { lay::gpos_single(rng, &mut pool) }], ext: rng.chance(1, 6) }
+                })
+                .collect();
+            let mut feats: Vec<(u32, Vec<u16>)> = Vec::new();
+            for tg in tags {
+                if rng.chance(1, 3) {
+                    feats.push((t(tg), (0..nl as u16).filter(|_| rng.bool()).collect()));
+                }
+            }
+            if feats.is_empty() {
+                feats.push((t(b"dist"), (0..nl as u16).collect()));
+            }
+            let sd: Vec<lay::ScriptDef> = scripts.iter().map(|&tag| lay::ScriptDef { tag, langs: vec![(None, (0..feats.len() as u16).collect())] }).collect();
+            match lay::layout_table(&sd, &feats, &lookups, true, None) {
+                Some(tb) => f.sets("GPOS", tb),
+                None => {
+                    cx.inconclusive("generator:table-too-big");
+                    return None;
+                }
+            }
+            features.extend(feats.iter().map(|x| x.0));
+        }
+        if rng.chance(1, 4) {
+            f.sets("GDEF", lay::gdef(rng, &pool, &[], None));
+        }
+        cx.class("kern2:font:generated");
+        let chars: Vec<char> = map.keys().filter_map(|c| char::from_u32(*c)).collect();
+        Some(FontCase {
+            name: format!("kern2:generated:{}", sc.name),
+            bytes: f.build(),
+            kind: "kern2",
+            wellformed: !pool.wrote_oob,
+            faults: Vec::new(),
+            program: Some("kern2"),
+            num_glyphs: n,
+            axes: 0,
+            scripts,
+            langs: Vec::new(),
+            features,
+            chars,
+            hot_chars,
+            aots: false,
+            growth: 1.0,
+            kern2: Some(k),
+            kern2_gpos: with_gpos,
         })
     }
 }
@@ -846,13 +1044,27 @@ impl C02 {
                 direct: false,
             };
         }
+        let mut text = text;
+        let mut kerning = rng.bool();
+        if fc.kern2.is_some() && !fc.hot_chars.is_empty() {
+            // adjacent pairs of the glyphs the class tables talk about, kerning asked for
+            if rng.chance(3, 4) {
+                let long = rng.chance(1, 8);
+                let n = 2 + rng.below(if long { 63 } else { 15 });
+                text = (0..n).map(|_| if rng.chance(7, 8) || fc.chars.is_empty() { *rng.pick(&fc.hot_chars) } else { *rng.pick(&fc.chars) }).collect();
+                cx.class("kern2:text-of-class-table-glyphs");
+            }
+            if !rng.chance(1, 8) {
+                kerning = true;
+            }
+        }
         Call {
             text,
             script,
             lang,
             features,
             tuple,
-            kerning: rng.bool(),
+            kerning,
             rtl: rng.bool(),
             vertical: rng.chance(1, 3),
             presentation_required: rng.chance(1, 5),
@@ -945,6 +1157,18 @@ impl C02 {
         if let Some(p) = fc.program {
             cx.class(&format!("prog:{}", p));
         }
+        if let Some(k) = &fc.kern2 {
+            cx.class(if fc.kern2_gpos { "kern2:font-with-gpos-without-kern-feature" } else { "kern2:font-without-gpos" });
+            for w in &k.what {
+                cx.class(w);
+            }
+            if k.certain().is_some() {
+                cx.class("kern2:font-with-reachable-format2-subtable");
+            }
+            if k.format0 > 0 {
+                cx.class("kern2:font-with-format0-next-to-format2");
+            }
+        }
         // fvar for tuples (never faulted here)
         let fvar_data = if fc.axes > 0 { font.font_table_provider.read_table_data(allsorts::tag::FVAR).ok().map(|c| c.into_owned()) } else { None };
         for _ in 0..ncalls {
@@ -1001,6 +1225,24 @@ impl C02 {
             }
         }
         let before: Vec<u16> = glyphs.iter().map(|g| g.glyph_index).collect();
+        // ---- what the adjacent pairs of the run select in a generated format 2 kern sub-table ----
+        // (counted before shaping: the font has no GSUB / morx, so this is the run that is kerned;
+        // without a GPOS table the kern table is applied unconditionally)
+        let mut kern2_end_pair = false;
+        let kern2_prefix = if fc.kern2_gpos { "kern2-gpos-without-kern" } else { "kern2" };
+        if let Some(k) = &fc.kern2 {
+            if k.certain().is_some() {
+                cx.class(&format!("{}:call-with-reachable-format2-subtable", kern2_prefix));
+            }
+            for c in kern::pair_classes(k, &before) {
+                // with a GPOS table the kern table is consulted only when 'kern' is asked for
+                let c = if fc.kern2_gpos { c.replace("pair-looked-up-", "pair-") } else { c.to_string() };
+                cx.class(&format!("{}:{}", kern2_prefix, c));
+                if c.ends_with("at-array-end") || c.ends_with("at-array-last-byte") {
+                    kern2_end_pair = true;
+                }
+            }
+        }
         // ---- tuple ----
         let owned;
         let tuple = match (&call.tuple, fvar_data) {
@@ -1108,6 +1350,28 @@ impl C02 {
         }
         if infos.iter().any(|i| i.kerning != 0) {
             cx.class("kerning-nonzero");
+            if fc.kern2.is_some() {
+                // a kerning value is an adjustment of the placement
+                changed = true;
+            }
+        }
+        if let Some(k) = &fc.kern2 {
+            // evidence that the format 2 values are what gets applied: a pair for which the
+            // generator's description holds a non-zero value came back with a non-zero kerning
+            if !was_err && infos.len() == before.len() && infos.iter().zip(&before).all(|(i, b)| i.glyph.glyph_index == *b) {
+                let valued = kern::valued_pairs(k, &before);
+                if !valued.is_empty() {
+                    cx.class(&format!("{}:run-with-valued-pair", kern2_prefix));
+                    if valued.iter().any(|&i| infos[i].kerning != 0) {
+                        cx.class(&format!("{}:format2-value-observed-in-run", kern2_prefix));
+                        if kern2_end_pair {
+                            // the kern table was applied to this very run, so the pair at the end
+                            // of the array was looked up as well
+                            cx.class(&format!("{}:array-end-pair-in-run-with-observed-format2-value", kern2_prefix));
+                        }
+                    }
+                }
+            }
         }
         if infos.len() > 1000 {
             cx.class("run>1000-glyphs");
@@ -1224,6 +1488,12 @@ impl Prop for C02 {
             fc.growth = if p <= 2.0 * self.seeds[si].potential { p.min(8.0) } else { p };
             fc.bytes = tables.build();
             fc
+        } else if which >= 94 {
+            // (iv) kerning from a generated `kern` table with a format 2 (class based) sub-table
+            match self.gen_kern2_font(cx, rng) {
+                Some(f) => f,
+                None => return,
+            }
         } else {
             // (iii) generated font with a hostile lookup program, a third of them faulted as well
             let mut fc = match self.gen_font(cx, rng, false) {
